@@ -568,6 +568,9 @@ const fn mul(a: u64, b: u64) -> u64 {
 #[inline(always)]
 #[allow(clippy::many_single_char_names)]
 fn inv(x: u64) -> u64 {
+    // zero may also be represented by M (e.g. as the result of x + (-x)), for which the loop
+    // below never terminates
+    let x = normalize(x);
     if x == 0 {
         return 0;
     };
